@@ -2,7 +2,7 @@
     Statements only; proofs in proofs/RecordProofs.v (about model/Ser.v, the model of
     ser/serializer/struct_or_map.rs tied to the crate by the correspondence run). *)
 From Coq Require Import List NArith Permutation.
-Require Import Base Schema Sval Ser RecordProofs.
+Require Import Base Schema Sval Ser RecordProofs RecordPermProofs.
 Import ListNotations.
 
 (* every order of presenting the (distinct) fields gives the same outcome: both succeed with the
@@ -47,6 +47,35 @@ Theorem C13_nopanic : forall Sc n v st r st' p,
   p <> PRecordEqualArm /\ p <> PExpectedFieldsUnwrap /\ p <> PDebugAssertBuffers /\
   (sval_wf v = true -> p <> PSerKeyBeforeValue).
 Proof. exact record_no_panic. Qed.
+
+(* the remaining presentation forms. NESTED: [perm_equiv] relates two presentations that differ only by
+   permuting the fields of record presentations ANYWHERE inside (records in records, arrays and maps of
+   records, union branches, through Some / newtype wrappers, struct vs struct-variant vs map with
+   entry or split key/value calls): same outcome and same bytes, whatever the sink budget *)
+Theorem C13_perm_nested : forall Sc n v1 v2 st,
+  perm_equiv Sc n v1 v2 -> pool_ok st -> outcome_eq (ser Sc n v1 st) (ser Sc n v2 st).
+Proof. exact perm_equiv_ser_any_sink. Qed.
+(* a map presentation with SPLIT serialize_key / serialize_value calls against a struct in another order *)
+Theorem C13_perm_split : forall Sc nm fields sname len1 len2 ps1 ps2 st,
+  NoDup (map fst fields) -> Permutation ps1 ps2 -> pool_ok st ->
+  outcome_eq (ser Sc (FRecord nm fields) (SStruct sname len1 ps1) st)
+             (ser Sc (FRecord nm fields) (SMap len2 (split_calls ps2)) st).
+Proof. exact record_order_independent_split. Qed.
+(* a record reached THROUGH A UNION, selected by name or by type *)
+Theorem C13_perm_union_named : forall Sc ks sname d k rn fields len1 len2 ps1 ps2 st,
+  union_named Sc ks sname = Some (d, k) -> fnode_at Sc k = Some (FRecord rn fields) ->
+  NoDup (map fst fields) -> Permutation ps1 ps2 -> pool_ok st ->
+  outcome_eq (ser Sc (FUnion ks) (SStruct sname len1 ps1) st) (ser Sc (FUnion ks) (SStruct sname len2 ps2) st).
+Proof. exact record_order_independent_union_named. Qed.
+Theorem C13_perm_union_typed : forall Sc ks sname1 sname2 d k rn fields len1 len2 ps1 ps2 st,
+  union_named Sc ks sname1 = None -> union_named Sc ks sname2 = None ->
+  union_unnamed Sc ks Kinds.KStructOrMap = Some (d, k) -> fnode_at Sc k = Some (FRecord rn fields) ->
+  NoDup (map fst fields) -> Permutation ps1 ps2 -> pool_ok st ->
+  outcome_eq (ser Sc (FUnion ks) (SStruct sname1 len1 ps1) st) (ser Sc (FUnion ks) (SStruct sname2 len2 ps2) st).
+Proof. exact record_order_independent_union_typed. Qed.
+Check Ex.nested_bytes.
+Check perm_on_map_refuted.
+Check perm_dup_schema_refuted.
 
 (* non-vacuity: three fields, presented in schema order, reversed, as a map; nullable omitted;
    required omitted *)
